@@ -3,6 +3,7 @@
 package cache
 
 import (
+	"strings"
 	"sync"
 	"context"
 	"net/netip"
@@ -201,6 +202,8 @@ func verifC08Msg(kind string, ttl uint32, ecsScope uint8) *dns.Msg {
 		m.Ns = []dns.RR{soa}
 	case "nodata":
 		m.Ns = []dns.RR{soa}
+	case "servfail":
+		m.Rcode = dns.RcodeServerFailure
 	}
 	_ = ecsScope
 	return m
@@ -214,6 +217,11 @@ func verifC08Msg(kind string, ttl uint32, ecsScope uint8) *dns.Msg {
 // "prefetch-ecs" (PrefetchQueue.processPrefetch, claimed by a plain / an ECS client: the
 // refresh's resolver reports `cut` into the context's ResponseMeta).
 func VerifC08Write(path, kind string, ttl uint32, cut time.Time, cutKey uint64, ecsCap time.Duration) (gotCut time.Time, gotKey uint64, found bool) {
+	// "a>b": the stored / claimed entry is of kind a, the background refresh answers with kind b
+	refresh := kind
+	if a, b, ok := strings.Cut(kind, ">"); ok {
+		kind, refresh = a, b
+	}
 	cfg := &config.Config{CacheSize: 1024, Expire: 600, Prefetch: 50}
 	cfg.ECS.CacheLimitTTL.Duration = ecsCap
 	c := New(cfg)
@@ -248,7 +256,7 @@ func VerifC08Write(path, kind string, ttl uint32, cut time.Time, cutKey uint64, 
 			return time.Time{}, 0, false
 		}
 		claimed := v.(*CacheEntry)
-		c.SetPrefetchQueryer(&verifC08Stub{cut: cut, key: cutKey, msg: func(*dns.Msg) *dns.Msg { return verifC08Msg(kind, ttl, 0) }})
+		c.SetPrefetchQueryer(&verifC08Stub{cut: cut, key: cutKey, msg: func(*dns.Msg) *dns.Msg { return verifC08Msg(refresh, ttl, 0) }})
 		claimed.prefetch.Store(true)
 		req := new(dns.Msg)
 		req.SetQuestion("write.c08.example.", dns.TypeA)
